@@ -180,7 +180,7 @@ func runC08(c *ctx) {
 		}
 		<-statMu
 	}
-	n := c.pick(30000, 700000)
+	n := c.pick(70000, 700000)
 	c.parallel(n, func(i int, r *rng.R) {
 		g := gen.New(r, gen.Profile{MaxDepth: 1 + r.Intn(3), Vars: i%3 == 0, Ellipsis: i%7 == 0, Budget: 120, MaxKids: 3, MaxElems: 4})
 		move := "layout"
